@@ -7,6 +7,7 @@ package main
 // datagram; incomplete datagrams must produce nothing.
 
 import (
+	"strings"
 	"bytes"
 	"fmt"
 	"math/rand"
@@ -32,6 +33,10 @@ type dgram struct {
 }
 
 func dgBuild(w *wire.World, g *sip.Gen, id string, svc, src int, srcAddr string) *dgram {
+	return dgBuildLike(w, g, id, svc, src, srcAddr, nil)
+}
+
+func dgBuildLike(w *wire.World, g *sip.Gen, id string, svc, src int, srcAddr string, viaOf *dgram) *dgram {
 	d := &dgram{id: id, svc: svc, src: src}
 	sv := w.Svcs[svc]
 	// everything derives from the id: a single foreign byte is visible
@@ -48,6 +53,34 @@ func dgBuild(w *wire.World, g *sip.Gen, id string, svc, src int, srcAddr string)
 	}
 	for k := r.Intn(6); k > 0; k-- {
 		wire.InsertBefore(m, "content-length", sip.Header{Name: fmt.Sprintf("X-%s-%d", id, k), Value: id + "-" + randLetters(r, r.Intn(80))})
+	}
+	// header names that many datagrams share, each datagram in a spelling of its own
+	if r.Intn(2) == 0 {
+		wire.InsertBefore(m, "content-length", sip.Header{Name: []string{"X-Trace", "x-trace", "X-TRACE", "x-TrAcE", "X-trace"}[r.Intn(5)], Value: id})
+		for i, h := range m.Headers {
+			switch sip.Canon(h.Name) {
+			case "from":
+				m.Headers[i].Name = []string{"From", "f", "FROM", "from"}[r.Intn(4)]
+			case "to":
+				m.Headers[i].Name = []string{"To", "t", "TO", "to"}[r.Intn(4)]
+			case "call-id":
+				m.Headers[i].Name = []string{"Call-ID", "i", "CALL-ID", "call-id", "Call-Id"}[r.Intn(5)]
+			case "cseq":
+				m.Headers[i].Name = []string{"CSeq", "CSEQ", "cseq", "Cseq"}[r.Intn(4)]
+			case "max-forwards":
+				m.Headers[i].Name = []string{"Max-Forwards", "max-forwards", "MAX-FORWARDS"}[r.Intn(3)]
+			}
+		}
+	}
+	if viaOf != nil {
+		// method, sent-by and branch of an earlier datagram from another source; everything else
+		// is this datagram's own
+		if v, ok := viaOf.full.First("via"); ok {
+			wire.SetHeader(m, "Via", v)
+		}
+		if sp := strings.IndexByte(m.Start, ' '); sp > 0 {
+			m.Start = viaOf.full.Start[:strings.IndexByte(viaOf.full.Start, ' ')] + m.Start[sp:]
+		}
 	}
 	var size int
 	switch r.Intn(7) {
@@ -144,6 +177,7 @@ func scenarioDatagram() int {
 		srcs = append(srcs, e)
 	}
 	sent, relayed, discarded := 0, 0, 0
+	sharedVia := 0
 	seq := 0
 	for sent < total && run.Violations() <= 6 {
 		if h := w.Health(); h != "" {
@@ -159,7 +193,12 @@ func scenarioDatagram() int {
 			var mine []*dgram
 			for k := 1 + g.R.Intn(5); k > 0; k-- {
 				seq++
-				d := dgBuild(w, g, fmt.Sprintf("g%d", seq), svc, s, srcs[s].Addr)
+				var like *dgram
+				if s > 0 && len(burst[s-1]) > 0 && g.R.Intn(3) == 0 {
+					like = burst[s-1][0]
+					sharedVia++
+				}
+				d := dgBuildLike(w, g, fmt.Sprintf("g%d", seq), svc, s, srcs[s].Addr, like)
 				if bytesIn+len(d.sent) > 160*1024 {
 					continue
 				}
@@ -345,6 +384,7 @@ func scenarioDatagram() int {
 		run.Observe("complete_datagrams_relayed_after_the_flood", afterOK)
 	}
 	run.Observe("datagrams_sent", sent)
+	run.Observe("datagrams_that_share_method_sent_by_and_branch_with_one_of_another_source", sharedVia)
 	run.Observe("datagrams_relayed_as_their_own_image", relayed)
 	run.Observe("datagrams_discarded_as_required", discarded)
 	run.Observe("udp_kernel_drops", wire.UDPDrops())
